@@ -443,6 +443,10 @@ def finish(ctx, err=None):
         cov["samples"].append("(no sample recorded)")
     # schema wants states/transitions >= 1 for model_checking; if a run produced none fall back
     if cov["states"] < 1 or cov["transitions"] < 1:
+        # no TLC run completed (undecided run): the model_checking keys would be invalid, fall back
+        # to the generic keys
+        cov.pop("states", None)
+        cov.pop("transitions", None)
         cov.setdefault("evaluations", max(1, cov["traces_validated_against_impl"]))
         cov.setdefault("distinct_nontrivial", 0)
     os.makedirs(os.path.join(ROOT, "evidence"), exist_ok=True)
